@@ -12,3 +12,12 @@ package clientinterceptors
 //@   call invoker#0: assert arg0 == ctx0 && tt <= 0
 //@   call WithTimeout#0: assert arg_parent == ctx0 && arg_timeout == tt && tt > 0
 //@   call invoker#1: assert ctxParent[arg0] == ctx0 && ctxTimeout[arg0] == tt && tt > 0
+
+// the per-call timeout, when one is given, is the one used - whatever its size relative to the client default
+//@ func getTimeoutFromCallOptions
+//@   property C04
+//@   ensures implies(forall(j.(int), implies(0 <= j && j < len(opts), !typeIs(opts[j], TimeoutCallOption))), result == defaultTimeout)
+//@   ensures implies(len(opts) > 0 && typeIs(opts[0], TimeoutCallOption), result == opts[0].(TimeoutCallOption).timeout)
+//@   modifies nothing
+//@   loop 0: modifies nothing
+//@   loop 0: invariant forall(j.(int), implies(0 <= j && j < idx, !typeIs(opts[j], TimeoutCallOption)))
